@@ -977,6 +977,7 @@ func (s *Store[K, V]) Wait() {
 func (s *Store[K, V]) Recover(version uint64, reader io.Reader) error {
 	blockDecoder := gob.NewDecoder(reader)
 	block := &DataBlock[any]{}
+	metaSeen := false
 	s.policyMu.Lock()
 	defer s.policyMu.Unlock()
 	for {
@@ -997,6 +998,10 @@ func (s *Store[K, V]) Recover(version uint64, reader io.Reader) error {
 		if block.Type == 255 {
 			break
 		}
+		if block.Type != 1 && !metaSeen {
+			// entries must never be loaded before the version was verified
+			return errors.New("metadata block missing")
+		}
 		switch block.Type {
 		case 1: // metadata
 			metaDecoder := gob.NewDecoder(reader)
@@ -1008,6 +1013,7 @@ func (s *Store[K, V]) Recover(version uint64, reader io.Reader) error {
 			if m.Version != version {
 				return VersionMismatch
 			}
+			metaSeen = true
 			s.timerwheel.clock.SetStart(m.StartNano)
 			s.policy.sketch.EnsureCapacity(uint(m.Total))
 		case 2: // window lru
